@@ -73,6 +73,15 @@ func childMain(chunkFile, resFile string, par int, unit time.Duration) {
 	if err != nil {
 		panic(err)
 	}
+	// a child whose parent is gone (killed by the time limit of the check, ...) must not stay around
+	go func() {
+		for {
+			time.Sleep(2 * time.Second)
+			if os.Getppid() == 1 {
+				os.Exit(3)
+			}
+		}
+	}()
 	var mu sync.Mutex
 	emitW := func(w wire) {
 		mu.Lock()
